@@ -273,7 +273,7 @@ func runC03(c *engine.Ctx) {
 		}
 		var scope []scoped
 		seenFn := map[*ssa.Function]bool{}
-		for _, g := range append([]*ssa.Function{f}, allAnon(f)...) {
+		for _, g := range append([]*ssa.Function{f}, lexicalAnon(f)...) { // helpers are added below, with their bindings
 			scope = append(scope, scoped{g, nil})
 			seenFn[g] = true
 		}
